@@ -1,1 +1,562 @@
-//! unit catalogue and exact dimensional arithmetic
+//! Unit catalogue and exact dimensional arithmetic ("RefDim").
+//!
+//! Built from the *direct* unit definitions exported by the hooks (each unit's own `unit`
+//! statement: base, or factor × defining unit). Base-unit vectors and base factors are computed
+//! here by an independent recursion, not by numbat's `to_base_unit_representation`.
+
+use numbat::verif_hooks::{VFactor, VPrefix, VQuantity, VUnitDef};
+use std::collections::{BTreeMap, HashMap};
+
+// ------------------------------------------------------------------------------------------
+// exact rationals
+// ------------------------------------------------------------------------------------------
+
+#[derive(Clone, Copy, Debug, PartialEq, Eq, Hash, PartialOrd, Ord)]
+pub struct Rat {
+    pub n: i128,
+    pub d: i128,
+}
+
+fn gcd(a: i128, b: i128) -> i128 {
+    let (mut a, mut b) = (a.abs(), b.abs());
+    while b != 0 {
+        let t = a % b;
+        a = b;
+        b = t;
+    }
+    a.max(1)
+}
+
+impl Rat {
+    pub fn new(n: i128, d: i128) -> Rat {
+        assert!(d != 0);
+        let g = gcd(n, d);
+        let s = if d < 0 { -1 } else { 1 };
+        Rat {
+            n: s * n / g,
+            d: s * d / g,
+        }
+    }
+    pub fn int(n: i128) -> Rat {
+        Rat { n, d: 1 }
+    }
+    pub fn zero() -> Rat {
+        Rat::int(0)
+    }
+    pub fn one() -> Rat {
+        Rat::int(1)
+    }
+    pub fn is_zero(&self) -> bool {
+        self.n == 0
+    }
+    pub fn is_int(&self) -> bool {
+        self.d == 1
+    }
+    pub fn add(self, o: Rat) -> Rat {
+        Rat::new(self.n * o.d + o.n * self.d, self.d * o.d)
+    }
+    pub fn mul(self, o: Rat) -> Rat {
+        Rat::new(self.n * o.n, self.d * o.d)
+    }
+    pub fn neg(self) -> Rat {
+        Rat {
+            n: -self.n,
+            d: self.d,
+        }
+    }
+    pub fn to_f64(self) -> f64 {
+        self.n as f64 / self.d as f64
+    }
+    pub fn from_pair(p: (i128, i128)) -> Rat {
+        Rat::new(p.0, p.1)
+    }
+}
+
+impl std::fmt::Display for Rat {
+    fn fmt(&self, f: &mut std::fmt::Formatter<'_>) -> std::fmt::Result {
+        if self.d == 1 {
+            write!(f, "{}", self.n)
+        } else {
+            write!(f, "{}/{}", self.n, self.d)
+        }
+    }
+}
+
+/// Exponent vector over named bases (base units or base dimensions); zero entries are removed.
+#[derive(Clone, Debug, PartialEq, Eq, Hash, PartialOrd, Ord, Default)]
+pub struct DimVec(pub BTreeMap<String, Rat>);
+
+impl DimVec {
+    pub fn scalar() -> DimVec {
+        DimVec::default()
+    }
+    pub fn single(name: &str) -> DimVec {
+        let mut m = BTreeMap::new();
+        m.insert(name.to_string(), Rat::one());
+        DimVec(m)
+    }
+    pub fn is_scalar(&self) -> bool {
+        self.0.is_empty()
+    }
+    pub fn mul(&self, o: &DimVec) -> DimVec {
+        let mut m = self.0.clone();
+        for (k, v) in &o.0 {
+            let e = m.entry(k.clone()).or_insert(Rat::zero());
+            *e = e.add(*v);
+        }
+        m.retain(|_, v| !v.is_zero());
+        DimVec(m)
+    }
+    pub fn pow(&self, e: Rat) -> DimVec {
+        let mut m = BTreeMap::new();
+        for (k, v) in &self.0 {
+            let x = v.mul(e);
+            if !x.is_zero() {
+                m.insert(k.clone(), x);
+            }
+        }
+        DimVec(m)
+    }
+    pub fn div(&self, o: &DimVec) -> DimVec {
+        self.mul(&o.pow(Rat::int(-1)))
+    }
+    pub fn from_pairs(p: &[(String, (i128, i128))]) -> DimVec {
+        let mut v = DimVec::scalar();
+        for (name, e) in p {
+            v = v.mul(&DimVec::single(name).pow(Rat::from_pair(*e)));
+        }
+        v
+    }
+}
+
+impl std::fmt::Display for DimVec {
+    fn fmt(&self, f: &mut std::fmt::Formatter<'_>) -> std::fmt::Result {
+        if self.0.is_empty() {
+            return write!(f, "1");
+        }
+        let parts: Vec<String> = self
+            .0
+            .iter()
+            .map(|(k, v)| {
+                if *v == Rat::one() {
+                    k.clone()
+                } else {
+                    format!("{k}^({v})")
+                }
+            })
+            .collect();
+        write!(f, "{}", parts.join("·"))
+    }
+}
+
+// ------------------------------------------------------------------------------------------
+// independent prefix table (SI brochure 9th ed. + IEC 80000-13, plus the 2022 additions)
+// ------------------------------------------------------------------------------------------
+
+#[derive(Clone, Debug)]
+pub struct PrefixInfo {
+    pub long: &'static str,
+    pub shorts: &'static [&'static str],
+    pub metric: bool,
+    pub exp: i32,
+}
+
+pub const PREFIX_TABLE: &[PrefixInfo] = &[
+    PrefixInfo { long: "quecto", shorts: &["q"], metric: true, exp: -30 },
+    PrefixInfo { long: "ronto", shorts: &["r"], metric: true, exp: -27 },
+    PrefixInfo { long: "yocto", shorts: &["y"], metric: true, exp: -24 },
+    PrefixInfo { long: "zepto", shorts: &["z"], metric: true, exp: -21 },
+    PrefixInfo { long: "atto", shorts: &["a"], metric: true, exp: -18 },
+    PrefixInfo { long: "femto", shorts: &["f"], metric: true, exp: -15 },
+    PrefixInfo { long: "pico", shorts: &["p"], metric: true, exp: -12 },
+    PrefixInfo { long: "nano", shorts: &["n"], metric: true, exp: -9 },
+    PrefixInfo { long: "micro", shorts: &["µ", "μ", "u"], metric: true, exp: -6 },
+    PrefixInfo { long: "milli", shorts: &["m"], metric: true, exp: -3 },
+    PrefixInfo { long: "centi", shorts: &["c"], metric: true, exp: -2 },
+    PrefixInfo { long: "deci", shorts: &["d"], metric: true, exp: -1 },
+    PrefixInfo { long: "deca", shorts: &["da"], metric: true, exp: 1 },
+    PrefixInfo { long: "hecto", shorts: &["h"], metric: true, exp: 2 },
+    PrefixInfo { long: "kilo", shorts: &["k"], metric: true, exp: 3 },
+    PrefixInfo { long: "mega", shorts: &["M"], metric: true, exp: 6 },
+    PrefixInfo { long: "giga", shorts: &["G"], metric: true, exp: 9 },
+    PrefixInfo { long: "tera", shorts: &["T"], metric: true, exp: 12 },
+    PrefixInfo { long: "peta", shorts: &["P"], metric: true, exp: 15 },
+    PrefixInfo { long: "exa", shorts: &["E"], metric: true, exp: 18 },
+    PrefixInfo { long: "zetta", shorts: &["Z"], metric: true, exp: 21 },
+    PrefixInfo { long: "yotta", shorts: &["Y"], metric: true, exp: 24 },
+    PrefixInfo { long: "ronna", shorts: &["R"], metric: true, exp: 27 },
+    PrefixInfo { long: "quetta", shorts: &["Q"], metric: true, exp: 30 },
+    PrefixInfo { long: "kibi", shorts: &["Ki"], metric: false, exp: 10 },
+    PrefixInfo { long: "mebi", shorts: &["Mi"], metric: false, exp: 20 },
+    PrefixInfo { long: "gibi", shorts: &["Gi"], metric: false, exp: 30 },
+    PrefixInfo { long: "tebi", shorts: &["Ti"], metric: false, exp: 40 },
+    PrefixInfo { long: "pebi", shorts: &["Pi"], metric: false, exp: 50 },
+    PrefixInfo { long: "exbi", shorts: &["Ei"], metric: false, exp: 60 },
+    PrefixInfo { long: "zebi", shorts: &["Zi"], metric: false, exp: 70 },
+    PrefixInfo { long: "yobi", shorts: &["Yi"], metric: false, exp: 80 },
+    PrefixInfo { long: "robi", shorts: &["Ri"], metric: false, exp: 90 },
+    PrefixInfo { long: "quebi", shorts: &["Qi"], metric: false, exp: 100 },
+];
+
+impl PrefixInfo {
+    pub fn factor(&self) -> f64 {
+        if self.metric {
+            pow10(self.exp)
+        } else {
+            2f64.powi(self.exp)
+        }
+    }
+    pub fn vprefix(&self) -> VPrefix {
+        if self.metric {
+            VPrefix::Metric(self.exp)
+        } else {
+            VPrefix::Binary(self.exp)
+        }
+    }
+}
+
+/// 10^n computed by parsing the decimal literal (correctly rounded), independent of `powi`.
+pub fn pow10(n: i32) -> f64 {
+    format!("1e{n}").parse::<f64>().unwrap()
+}
+
+pub fn prefix_factor(p: VPrefix) -> f64 {
+    match p {
+        VPrefix::Metric(n) => pow10(n),
+        VPrefix::Binary(n) => 2f64.powi(n),
+    }
+}
+
+// ------------------------------------------------------------------------------------------
+// catalogue
+// ------------------------------------------------------------------------------------------
+
+#[derive(Clone, Debug)]
+pub struct UnitInfo {
+    pub def: VUnitDef,
+    /// exponent vector over base *units*
+    pub base_units: DimVec,
+    /// factor to base units
+    pub base_factor: f64,
+    /// exponent vector over base *dimensions* (from declared types of the base units)
+    pub dims: DimVec,
+}
+
+#[derive(Clone, Debug)]
+pub struct UnitForm {
+    /// identifier as written in source
+    pub ident: String,
+    pub unit: usize,
+    pub alias: String,
+    pub prefix: Option<usize>,
+    pub short_form: bool,
+}
+
+#[derive(Clone, Debug, Default)]
+pub struct Catalogue {
+    pub units: Vec<UnitInfo>,
+    pub by_name: HashMap<String, usize>,
+    /// alias -> unit index
+    pub by_alias: HashMap<String, usize>,
+    /// base unit name -> dimension vector over base dimensions
+    pub base_unit_dims: HashMap<String, DimVec>,
+    /// units grouped by equal base-unit vector (only groups with >= 1 unit), sorted
+    pub groups: Vec<Vec<usize>>,
+    /// identifier -> number of distinct (unit, prefix) readings among all accepted forms
+    pub readings: HashMap<String, usize>,
+    /// names that must not be used as unit spellings (variables/functions of the session)
+    pub other_names: std::collections::HashSet<String>,
+}
+
+impl Catalogue {
+    pub fn build(defs: Vec<VUnitDef>) -> Catalogue {
+        let mut by_name = HashMap::new();
+        for (i, d) in defs.iter().enumerate() {
+            by_name.insert(d.name.clone(), i);
+        }
+        let mut memo: Vec<Option<(DimVec, f64)>> = vec![None; defs.len()];
+        fn resolve(
+            i: usize,
+            defs: &[VUnitDef],
+            by_name: &HashMap<String, usize>,
+            memo: &mut Vec<Option<(DimVec, f64)>>,
+            depth: usize,
+        ) -> (DimVec, f64) {
+            if let Some(m) = &memo[i] {
+                return m.clone();
+            }
+            assert!(depth < 64, "unit definition cycle");
+            let d = &defs[i];
+            let r = if d.is_base {
+                (DimVec::single(&d.name), 1.0)
+            } else {
+                let mut vec = DimVec::scalar();
+                let mut factor = d.factor;
+                for f in &d.defining {
+                    let j = *by_name
+                        .get(&f.unit)
+                        .unwrap_or_else(|| panic!("unknown defining unit {}", f.unit));
+                    let (v, fac) = resolve(j, defs, by_name, memo, depth + 1);
+                    let e = Rat::from_pair(f.exponent);
+                    vec = vec.mul(&v.pow(e));
+                    factor *= pow_rat(prefix_factor(f.prefix) * fac, e);
+                }
+                (vec, factor)
+            };
+            memo[i] = Some(r.clone());
+            r
+        }
+        let mut resolved = vec![];
+        for i in 0..defs.len() {
+            resolved.push(resolve(i, &defs, &by_name, &mut memo, 0));
+        }
+        let mut base_unit_dims = HashMap::new();
+        for d in &defs {
+            if d.is_base {
+                base_unit_dims.insert(d.name.clone(), DimVec::from_pairs(&d.type_base_repr));
+            }
+        }
+        let mut units = vec![];
+        let mut by_alias = HashMap::new();
+        for (i, d) in defs.into_iter().enumerate() {
+            let (bu, bf) = resolved[i].clone();
+            let mut dims = DimVec::scalar();
+            for (b, e) in &bu.0 {
+                let bd = base_unit_dims.get(b).cloned().unwrap_or_default();
+                dims = dims.mul(&bd.pow(*e));
+            }
+            for (a, _, _) in &d.aliases {
+                by_alias.insert(a.clone(), i);
+            }
+            units.push(UnitInfo {
+                def: d,
+                base_units: bu,
+                base_factor: bf,
+                dims,
+            });
+        }
+        let mut gm: BTreeMap<DimVec, Vec<usize>> = BTreeMap::new();
+        for (i, u) in units.iter().enumerate() {
+            gm.entry(u.base_units.clone()).or_default().push(i);
+        }
+        let groups = gm.into_values().collect();
+        let mut cat = Catalogue {
+            units,
+            by_name,
+            by_alias,
+            base_unit_dims,
+            groups,
+            readings: HashMap::new(),
+            other_names: Default::default(),
+        };
+        let mut seen: HashMap<String, std::collections::BTreeSet<(usize, Option<usize>)>> =
+            HashMap::new();
+        for f in cat.all_forms() {
+            seen.entry(f.ident).or_default().insert((f.unit, f.prefix));
+        }
+        cat.readings = seen.into_iter().map(|(k, v)| (k, v.len())).collect();
+        cat
+    }
+
+    /// true iff the identifier has exactly one reading as a unit and is no other name
+    pub fn unambiguous(&self, ident: &str) -> bool {
+        self.readings.get(ident).copied() == Some(1) && !self.other_names.contains(ident)
+    }
+
+    pub fn unit(&self, name: &str) -> Option<&UnitInfo> {
+        self.by_name.get(name).map(|i| &self.units[*i])
+    }
+
+    /// All ordered pairs (i, j), i != j, of units with the same base-unit vector.
+    pub fn same_dimension_pairs(&self) -> Vec<(usize, usize)> {
+        let mut out = vec![];
+        for g in &self.groups {
+            for &a in g {
+                for &b in g {
+                    if a != b {
+                        out.push((a, b));
+                    }
+                }
+            }
+        }
+        out
+    }
+
+    /// Which prefixes does this unit accept for the given alias form (by its decorators)?
+    pub fn accepted_prefixes(&self, unit: usize, short: bool, long: bool) -> Vec<(usize, bool)> {
+        let d = &self.units[unit].def;
+        let mut out = vec![];
+        for (pi, p) in PREFIX_TABLE.iter().enumerate() {
+            let family_ok = if p.metric {
+                d.metric_prefixes
+            } else {
+                d.binary_prefixes
+            };
+            if !family_ok {
+                continue;
+            }
+            if long {
+                out.push((pi, false));
+            }
+            if short {
+                out.push((pi, true));
+            }
+        }
+        out
+    }
+
+    /// Every accepted spelling of every unit: bare aliases and accepted prefixed forms.
+    pub fn all_forms(&self) -> Vec<UnitForm> {
+        let mut out = vec![];
+        for (ui, u) in self.units.iter().enumerate() {
+            for (alias, short, long) in &u.def.aliases {
+                out.push(UnitForm {
+                    ident: alias.clone(),
+                    unit: ui,
+                    alias: alias.clone(),
+                    prefix: None,
+                    short_form: false,
+                });
+                for (pi, is_short) in self.accepted_prefixes(ui, *short, *long) {
+                    let p = &PREFIX_TABLE[pi];
+                    if is_short {
+                        for s in p.shorts {
+                            out.push(UnitForm {
+                                ident: format!("{s}{alias}"),
+                                unit: ui,
+                                alias: alias.clone(),
+                                prefix: Some(pi),
+                                short_form: true,
+                            });
+                        }
+                    } else {
+                        out.push(UnitForm {
+                            ident: format!("{}{alias}", p.long),
+                            unit: ui,
+                            alias: alias.clone(),
+                            prefix: Some(pi),
+                            short_form: false,
+                        });
+                    }
+                }
+            }
+        }
+        out
+    }
+
+    // ---- physical values ------------------------------------------------------------------
+
+    /// (base-unit vector, factor to base units) of a factor list
+    pub fn unit_of_factors(&self, fs: &[VFactor]) -> Option<(DimVec, f64)> {
+        let mut vec = DimVec::scalar();
+        let mut factor = 1.0;
+        for f in fs {
+            let u = self.unit(&f.unit)?;
+            let e = Rat::from_pair(f.exponent);
+            vec = vec.mul(&u.base_units.pow(e));
+            factor *= pow_rat(prefix_factor(f.prefix) * u.base_factor, e);
+        }
+        Some((vec, factor))
+    }
+
+    /// Physical value (magnitude in base units, base-unit vector) of a quantity.
+    pub fn physical(&self, q: &VQuantity) -> Option<Phys> {
+        let (vec, factor) = self.unit_of_factors(&q.factors)?;
+        Some(Phys {
+            mag: q.value * factor,
+            vec,
+        })
+    }
+
+    /// dimension vector (over base dimensions) of a base-unit vector
+    pub fn dims_of(&self, base_units: &DimVec) -> DimVec {
+        let mut dims = DimVec::scalar();
+        for (b, e) in &base_units.0 {
+            let bd = self.base_unit_dims.get(b).cloned().unwrap_or_default();
+            dims = dims.mul(&bd.pow(*e));
+        }
+        dims
+    }
+}
+
+pub fn pow_rat(x: f64, e: Rat) -> f64 {
+    if e.is_int() && e.n.abs() <= i32::MAX as i128 {
+        x.powi(e.n as i32)
+    } else {
+        x.powf(e.to_f64())
+    }
+}
+
+#[derive(Clone, Debug, PartialEq)]
+pub struct Phys {
+    pub mag: f64,
+    pub vec: DimVec,
+}
+
+impl Phys {
+    pub fn scalar(x: f64) -> Phys {
+        Phys {
+            mag: x,
+            vec: DimVec::scalar(),
+        }
+    }
+    pub fn mul(&self, o: &Phys) -> Phys {
+        Phys {
+            mag: self.mag * o.mag,
+            vec: self.vec.mul(&o.vec),
+        }
+    }
+    pub fn div(&self, o: &Phys) -> Phys {
+        Phys {
+            mag: self.mag / o.mag,
+            vec: self.vec.div(&o.vec),
+        }
+    }
+    pub fn pow(&self, e: Rat) -> Phys {
+        Phys {
+            mag: pow_rat(self.mag, e),
+            vec: self.vec.pow(e),
+        }
+    }
+}
+
+/// relative closeness with a floor for exact zeros
+pub fn rel_close(a: f64, b: f64, tol: f64) -> bool {
+    if a == b {
+        return true;
+    }
+    if a.is_nan() || b.is_nan() {
+        return a.is_nan() && b.is_nan();
+    }
+    if a.is_infinite() || b.is_infinite() {
+        return false;
+    }
+    let scale = a.abs().max(b.abs());
+    (a - b).abs() <= tol * scale
+}
+
+thread_local! {
+    static CATALOGUE: std::cell::RefCell<Option<std::rc::Rc<Catalogue>>> = const { std::cell::RefCell::new(None) };
+}
+
+/// Catalogue of the prelude's units (built once per thread).
+pub fn prelude_catalogue() -> std::rc::Rc<Catalogue> {
+    CATALOGUE.with(|c| {
+        let mut c = c.borrow_mut();
+        if c.is_none() {
+            let ctx = crate::session::prelude();
+            let mut cat = Catalogue::build(ctx.verif_unit_definitions());
+            cat.other_names = ctx
+                .variable_names()
+                .chain(ctx.function_names())
+                .map(|s| s.to_string())
+                .collect();
+            *c = Some(std::rc::Rc::new(cat));
+        }
+        c.as_ref().unwrap().clone()
+    })
+}
+
+pub fn catalogue_of(ctx: &numbat::Context) -> Catalogue {
+    Catalogue::build(ctx.verif_unit_definitions())
+}
